@@ -288,8 +288,9 @@ def gen_op(rng, ai, pool, ctx):
         if form == 'infix' and name not in INFIX:
             form = 'method'
         u = rng.random()
-        if u < 0.08:
-            num = {'k': 'num', 'v': gen_value(rng, ctx['valkind'])}
+        if u < (0.08 if ctx['valkind'] != 'nd' else 0.3):
+            num = {'k': 'num', 'v': gen_value(rng, ctx['valkind'] if ctx['valkind'] != 'nd' or rng.random() < 0.2
+                                              else rng.choice(['int', 'float']))}
             if rng.random() < 0.5 and name in INFIX:
                 a, form = num, 'infix'            # reflected operator
             elif a.get('k') != 'num':
@@ -595,7 +596,8 @@ def gen_trace(rng, tier='quick', crit_names=(), arm=None):
                  warn_as_error=fault_arm and rng.random() < 0.1,
                  wrapper_faults=wrapper_faults,
                  instr=rng.random() < 0.3,
-                 instr_poly=rng.random() < 0.15)
+                 instr_poly=rng.random() < 0.15,
+                 hold_refs=rng.random() < 0.5)
     policy = {'kind': 'seq'} if n_callers == 1 else dict(rng.choice(TWIN_POLICIES if twins else POLICIES))
     world['twins'] = twins
     return dict(property='C09', world=world, callers=callers, faults=faults, policy=policy, schedule=None,
